@@ -1,2 +1,83 @@
-(* placeholder; replaced below *)
-From Coq Require Import ZArith.
+(* C02 - primitive wire types encode and decode exactly as the protocol prescribes. *)
+From Coq Require Import ZArith List Bool.
+From Flocq Require Import IEEE754.Binary IEEE754.Bits.
+From PyCraft Require Import Base.Res Model.Tables Model.Prim Model.VarInt Model.Utf8 Model.FieldTypes.
+From PyCraft Require Import Proofs.PrimProofs Proofs.Utf8Proofs Proofs.FieldTypesProofs Proofs.C02Extra Proofs.FloatBits.
+Import ListNotations.
+Open Scope Z_scope.
+
+(* Encoding never fails (and, the functions being total, never hangs) on an in-domain value; decoding
+   the encoding followed by ANY further bytes returns the value (canon = identity except for angle and
+   fixed point) and consumes exactly the encoding.  For every type term: all scalars, strings, byte
+   arrays, UUIDs, angles, fixed point over every integer base, arbitrarily nested prefixed arrays. *)
+Theorem C02_roundtrip : forall c nbt t v, in_dom c nbt t v ->
+  exists bs, enc c t v = Ok bs /\ bs <> [] /\ forall rest, dec c nbt t (bs ++ rest) = Ok (canon t v, rest).
+Proof. exact rt_all. Qed.
+Print Assumptions C02_roundtrip.
+
+(* A strict prefix of an encoding of a self-delimiting type never decodes to a value. *)
+Theorem C02_strict_prefix : forall c nbt t v, self_delim t = true -> in_dom c nbt t v ->
+  forall bs, enc c t v = Ok bs -> forall p, sprefix p bs -> exists e, dec c nbt t p = Err e.
+Proof. exact pe_all. Qed.
+Print Assumptions C02_strict_prefix.
+
+(* Integers: exactly k bytes, the big-endian digits of v modulo 256^k (two's complement); values
+   outside the type's range are refused. *)
+Theorem C02_int_bytes : forall signed k v bs, enc_int signed k v = Ok bs ->
+  length bs = k /\ Forall (fun b => 0 <= b < 256) bs /\ be_value 0 bs = v mod pow256 k /\ int_lo signed k <= v < int_hi signed k.
+Proof. exact enc_int_spec. Qed.
+Print Assumptions C02_int_bytes.
+Theorem C02_int_refuses : forall signed k v, ~ (int_lo signed k <= v < int_hi signed k) -> enc_int signed k v = Err StructError.
+Proof. exact enc_int_out_of_range. Qed.
+Print Assumptions C02_int_refuses.
+
+(* IEEE-754: the wire form of a float is the big-endian bytes of its bit pattern, for every binary32 /
+   binary64 datum (zeros, subnormals, infinities, NaNs included), and reading returns that datum. *)
+Theorem C02_float32 : forall f : binary32,
+  exists bs, enc_f32 f = Ok bs /\ length bs = 4%nat /\ forall rest, dec_f32 (bs ++ rest) = Ok (f, rest).
+Proof. exact f32_roundtrip. Qed.
+Print Assumptions C02_float32.
+Theorem C02_float64 : forall f : binary64,
+  exists bs, enc_f64 f = Ok bs /\ length bs = 8%nat /\ forall rest, dec_f64 (bs ++ rest) = Ok (f, rest).
+Proof. exact f64_roundtrip. Qed.
+Print Assumptions C02_float64.
+
+(* Angle: the byte sent is in 0..255 and the decoded angle is within half a step (360/512 degrees) of
+   the value, modulo whole turns.  v = num / 2^k. *)
+Theorem C02_angle_quantum : forall num k, 0 <= k ->
+  0 <= angle_byte num k < 256 /\
+  exists turns, 2 * Z.abs (angle_byte num k * (360 * 2 ^ k) - 256 * num + 256 * turns * (360 * 2 ^ k)) <= 360 * 2 ^ k.
+Proof. intros num k Hk. split; [apply angle_byte_range|exact (angle_quantum num k Hk)]. Qed.
+Print Assumptions C02_angle_quantum.
+
+(* Fixed point: the integer sent is within one unit of v * 2^n, i.e. |decoded - v| < 2^-n. *)
+Theorem C02_fixed_quantum : forall num k n, 0 <= k -> 0 <= n ->
+  Z.abs (fixed_int num k n * 2 ^ k - num * 2 ^ n) < 2 ^ k.
+Proof. exact fixed_quantum. Qed.
+Print Assumptions C02_fixed_quantum.
+
+(* UTF-8: strings of scalar values always encode; decoding inverts; the decoder never runs out of fuel. *)
+Theorem C02_utf8 : forall cps, forallb is_scalar cps = true ->
+  exists bs, utf8_enc cps = Ok bs /\ Forall (fun b => 0 <= b < 256) bs /\ utf8_dec bs = Ok cps.
+Proof.
+  intros cps H. destruct (utf8_enc_ok cps H) as (bs & Hb). exists bs.
+  split; [exact Hb|]. split; [exact (utf8_enc_wf cps bs Hb)|exact (utf8_roundtrip cps bs Hb)].
+Qed.
+Print Assumptions C02_utf8.
+Theorem C02_utf8_total : forall bs, utf8_dec bs <> OutOfFuel.
+Proof. exact utf8_dec_total. Qed.
+Print Assumptions C02_utf8_total.
+
+(* non-vacuity: concrete in-domain values and their prescribed bytes, computed by the kernel *)
+Definition c0 := {| c_pos_zy := true; c_rec_new := true; c_pitch_float := true |}.
+Example C02_vectors :
+  enc c0 TShort (VInt (-2)) = Ok [255; 254] /\ enc c0 TUShort (VInt 65534) = Ok [255; 254] /\
+  enc c0 TInt (VInt (-2147483648)) = Ok [128; 0; 0; 0] /\ enc c0 TLong (VInt (-1)) = Ok [255;255;255;255;255;255;255;255] /\
+  enc c0 TString (VStr [104; 233; 8364; 128512]) = Ok [10; 104; 195; 169; 226; 130; 172; 240; 159; 152; 128] /\
+  enc c0 TAngle (VQ 719 1) = Ok [0] /\ enc c0 TAngle (VQ 90 0) = Ok [64] /\ enc c0 TAngle (VQ (-1) 1) = Ok [0] /\
+  enc c0 (TFixed TInt 5) (VQ (-3) 1) = Ok [255; 255; 255; 208] /\
+  enc c0 (TArray TVarInt (TArray TByte TBool)) (VList [VList [VBool true]; VList []]) = Ok [2; 1; 1; 0] /\
+  enc c0 TFloat (VInt (bits_of_b32 (b32_of_bits 1065353216))) = Ok [63; 128; 0; 0] /\
+  dec c0 (fun _ => None) TString [5; 104; 101] = Err EOFError /\
+  enc c0 TUByte (VInt 256) = Err StructError.
+Proof. vm_compute. repeat split; reflexivity. Qed.
